@@ -100,6 +100,9 @@ func checkC20(c *Ctx) {
 		case 4:
 			rig["mode"] = "access"
 		}
+		if root.Sub("cold").Chance(1, 2) {
+			rig["cold"] = true // the tasks are the first users of the libraries in the process
+		}
 		s.Rig = rig
 		jobs = append(jobs, Job{S: s, Rig: "cc", Judge: "ls", Tag: "c20/" + fmt.Sprint(rig["mode"])})
 	}
@@ -119,6 +122,9 @@ func checkC20(c *Ctx) {
 				sigs[keyHash(fmt.Sprint(j.S.Seed, e.Info["schedule"]))] = true
 			}
 			c.Dims["mode:"+fmt.Sprint(j.S.Rig["mode"])]++
+			if cold, _ := j.S.Rig["cold"].(bool); cold {
+				c.Probes["cold-start schedules (tasks are the first users of the libraries)"]++
+			}
 			c.Dims[fmt.Sprintf("tasks:%v", j.S.Rig["tasks"])]++
 		}
 	})
